@@ -4,13 +4,17 @@ use crate::core::{Report, Viol};
 pub mod c01;
 pub mod c02;
 pub mod c03;
+pub mod c04;
 pub mod c05;
 pub mod c06;
 pub mod c07;
 pub mod c08;
 pub mod c09;
 pub mod util;
+pub mod c10;
+pub mod c12;
 pub mod c16;
+pub mod quire;
 
 pub type RunFn = fn(&mut Report);
 pub type ReplayFn = fn(&str, &[u64]) -> Result<(), Viol>;
@@ -19,11 +23,14 @@ pub static ALL: &[(&str, RunFn, ReplayFn)] = &[
     ("C01", c01::run, c01::replay),
     ("C02", c02::run, c02::replay),
     ("C03", c03::run, c03::replay),
+    ("C04", c04::run, c04::replay),
     ("C05", c05::run, c05::replay),
     ("C06", c06::run, c06::replay),
     ("C07", c07::run, c07::replay),
     ("C08", c08::run, c08::replay),
     ("C09", c09::run, c09::replay),
+    ("C10", c10::run, c10::replay),
+    ("C12", c12::run, c12::replay),
 ];
 
 /// `--replay <file>`: re-evaluate one saved case with plain code (no proptest) on the current tree
